@@ -196,7 +196,9 @@ def exp_list(seq, case, level):
         if unres:
             e.owed[nf] = unres
         if repeats:
-            e.optional[nf] = repeats
+            # the second naming of an ID refers to an element that is no longer there once the first
+            # naming has been applied: it "cannot be found" and is owed a report like any other
+            e.owed[nf] += repeats
             e.defined = False
         e.note = f'n={len(srcs)},unres={unres},rep={repeats}'
         if not unres and not repeats:
